@@ -186,8 +186,10 @@ def normalise(program):
         if id(h.node) in roles and not single_expression(h):
             return False
         nm = h.name
-        if not nm.startswith("_") or (nm.startswith("__") and nm.endswith("__")):
+        if nm.startswith("__") and nm.endswith("__"):
             return False
+        if h.cls is not None and not nm.startswith("_"):
+            return False  # public methods are entry points of their own
         scope = h.cls.name if h.cls is not None else "<module>"
         if nm in known.get(h.module.name, {}).get(scope, []):
             return False
@@ -304,7 +306,7 @@ def normalise(program):
                 table = scope.funcs if scope is m else scope.methods
                 for nm in list(table):
                     h = table[nm]
-                    if h.qualname in inl.inlined and is_unknown_helper(h):
+                    if h.qualname in inl.inlined and is_unknown_helper(h) and nm.startswith("_"):
                         # still referenced somewhere outside its own definition?
                         refs = 0
                         for n in ast.walk(m.tree):
